@@ -560,64 +560,86 @@ theorem markFileOutdated_inv {Q : KState → Prop} (hQ : PropInv Q) (s s' : KSta
         exact h ▸ hs
       · cases h
 
-/-! ## Writes that never touch a file state -/
+/-! ## Writes that touch neither a file state nor a step state -/
 
-theorem fstateOf_modify (s : KState) (k q : Key) (f : Node → Node) (hkey : ∀ n, (f n).key = n.key)
-    (hf : ∀ n, (f n).fstate = n.fstate) : (s.modify k f).fstateOf q = s.fstateOf q :=
-  find?_modify_proj s k f (·.fstate) q hkey hf
+/-- `(file state, step state)` of the row with key `q`. -/
+def KState.statesOf (s : KState) (q : Key) : Option (FileState × StepState) :=
+  (s.find? q).map fun n => (n.fstate, n.sstate)
 
-theorem fstateOf_modifyWhere (s : KState) (p : Node → Bool) (q : Key) (f : Node → Node) (hkey : ∀ n, (f n).key = n.key)
-    (hf : ∀ n, (f n).fstate = n.fstate) : (s.modifyWhere p f).fstateOf q = s.fstateOf q :=
-  find?_modifyWhere_proj s p f (·.fstate) q hkey hf
+theorem fstateOf_of_statesOf {s s' : KState} {q : Key} (h : s'.statesOf q = s.statesOf q) :
+    s'.fstateOf q = s.fstateOf q := by
+  unfold KState.statesOf at h
+  unfold KState.fstateOf
+  cases h1 : s'.find? q <;> cases h2 : s.find? q <;> simp_all
 
-theorem fstateOf_setDetachedRow (s : KState) (k : Key) (d : Bool) (q : Key) :
-    (s.setDetachedRow k d).fstateOf q = s.fstateOf q := by
+theorem sstateOf_of_statesOf {s s' : KState} {q : Key} (h : s'.statesOf q = s.statesOf q) :
+    s'.sstateOf q = s.sstateOf q := by
+  unfold KState.statesOf at h
+  unfold KState.sstateOf
+  cases h1 : s'.find? q <;> cases h2 : s.find? q <;> simp_all
+
+theorem statesOf_modify (s : KState) (k q : Key) (f : Node → Node) (hkey : ∀ n, (f n).key = n.key)
+    (hf : ∀ n, (f n).fstate = n.fstate) (hs : ∀ n, (f n).sstate = n.sstate) :
+    (s.modify k f).statesOf q = s.statesOf q :=
+  find?_modify_proj s k f (fun n => (n.fstate, n.sstate)) q hkey (fun n => by simp [hf, hs])
+
+theorem statesOf_modifyWhere (s : KState) (p : Node → Bool) (q : Key) (f : Node → Node)
+    (hkey : ∀ n, (f n).key = n.key) (hf : ∀ n, (f n).fstate = n.fstate) (hs : ∀ n, (f n).sstate = n.sstate) :
+    (s.modifyWhere p f).statesOf q = s.statesOf q :=
+  find?_modifyWhere_proj s p f (fun n => (n.fstate, n.sstate)) q hkey (fun n => by simp [hf, hs])
+
+theorem statesOf_flagReadySinks (s : KState) (k q : Key) : (s.flagReadySinks k).statesOf q = s.statesOf q := by
+  unfold KState.flagReadySinks
+  exact statesOf_modifyWhere s _ q _ (fun _ => rfl) (fun _ => rfl) (fun _ => rfl)
+
+theorem statesOf_setDetachedRow (s : KState) (k : Key) (d : Bool) (q : Key) :
+    (s.setDetachedRow k d).statesOf q = s.statesOf q := by
   unfold KState.setDetachedRow
   cases s.find? k with
   | none => rfl
   | some n =>
     simp only
     split
-    · rw [fstateOf_flagReadySinks]; exact fstateOf_modify s k q _ (fun _ => rfl) (fun _ => rfl)
-    · exact fstateOf_modify s k q _ (fun _ => rfl) (fun _ => rfl)
+    · rw [statesOf_flagReadySinks]; exact statesOf_modify s k q _ (fun _ => rfl) (fun _ => rfl) (fun _ => rfl)
+    · exact statesOf_modify s k q _ (fun _ => rfl) (fun _ => rfl) (fun _ => rfl)
 
-theorem fstateOf_setDetachedRec (s : KState) (k : Key) (d : Bool) (q : Key) :
-    (s.setDetachedRec k d).fstateOf q = s.fstateOf q := by
+theorem statesOf_setDetachedRec (s : KState) (k : Key) (d : Bool) (q : Key) :
+    (s.setDetachedRec k d).statesOf q = s.statesOf q := by
   unfold KState.setDetachedRec
   generalize s.descendants k = l
   induction l generalizing s with
   | nil => rfl
-  | cons a as ih => simp only [List.foldl_cons]; rw [ih]; exact fstateOf_setDetachedRow s a d q
+  | cons a as ih => simp only [List.foldl_cons]; rw [ih]; exact statesOf_setDetachedRow s a d q
 
-theorem fstateOf_setCreator (s s' : KState) (k : Key) (c : Option Key) (d : Bool) (q : Key)
-    (h : s.setCreator k c d = .ok s') : s'.fstateOf q = s.fstateOf q := by
+theorem statesOf_setCreator (s s' : KState) (k : Key) (c : Option Key) (d : Bool) (q : Key)
+    (h : s.setCreator k c d = .ok s') : s'.statesOf q = s.statesOf q := by
   unfold KState.setCreator at h
   split at h
   · simp only [pure, Except.pure, Except.ok.injEq] at h
     subst h
-    rw [fstateOf_setDetachedRow]
-    exact fstateOf_modify s k q _ (fun _ => rfl) (fun _ => rfl)
+    rw [statesOf_setDetachedRow]
+    exact statesOf_modify s k q _ (fun _ => rfl) (fun _ => rfl) (fun _ => rfl)
   · cases h
 
-theorem fstateOf_flagChecksWithProducts (s s' : KState) (k q : Key) (h : s.flagChecksWithProducts k = .ok s') :
-    s'.fstateOf q = s.fstateOf q := by
+theorem statesOf_flagChecksWithProducts (s s' : KState) (k q : Key) (h : s.flagChecksWithProducts k = .ok s') :
+    s'.statesOf q = s.statesOf q := by
   unfold KState.flagChecksWithProducts at h
   split at h
   · cases h
   · simp only [pure, Except.pure, Except.ok.injEq] at h
     subst h
-    exact fstateOf_modifyWhere s _ q _ (fun _ => rfl) (fun _ => rfl)
+    exact statesOf_modifyWhere s _ q _ (fun _ => rfl) (fun _ => rfl) (fun _ => rfl)
 
-theorem fstateOf_flagCheckAfterSources (s s' : KState) (k q : Key) (h : s.flagCheckAfterSources k = .ok s') :
-    s'.fstateOf q = s.fstateOf q := by
+theorem statesOf_flagCheckAfterSources (s s' : KState) (k q : Key) (h : s.flagCheckAfterSources k = .ok s') :
+    s'.statesOf q = s.statesOf q := by
   unfold KState.flagCheckAfterSources at h
   split at h
   · cases h
   · simp only [pure, Except.pure, Except.ok.injEq] at h
     subst h
-    exact fstateOf_modifyWhere s _ q _ (fun _ => rfl) (fun _ => rfl)
+    exact statesOf_modifyWhere s _ q _ (fun _ => rfl) (fun _ => rfl) (fun _ => rfl)
 
-theorem fstateOf_detach (s s' : KState) (k q : Key) (h : s.detach k = .ok s') : s'.fstateOf q = s.fstateOf q := by
+theorem statesOf_detach (s s' : KState) (k q : Key) (h : s.detach k = .ok s') : s'.statesOf q = s.statesOf q := by
   unfold KState.detach at h
   cases hf : s.find? k with
   | none => simp [hf] at h
@@ -627,7 +649,7 @@ theorem fstateOf_detach (s s' : KState) (k q : Key) (h : s.detach k = .ok s') : 
     | error e => simp [hc] at h
     | ok s1 =>
       simp only [hc] at h
-      have h1 : s1.fstateOf q = s.fstateOf q := by
+      have h1 : s1.statesOf q = s.statesOf q := by
         unfold KState.detachCore at hc
         split at hc
         · simp only [bind, Except.bind] at hc
@@ -636,13 +658,13 @@ theorem fstateOf_detach (s s' : KState) (k q : Key) (h : s.detach k = .ok s') : 
           | ok s0 =>
             simp only [hs, pure, Except.pure, Except.ok.injEq] at hc
             subst hc
-            have := fstateOf_setCreator s s0 k none true q hs
+            have := statesOf_setCreator s s0 k none true q hs
             split
-            · rw [fstateOf_setDetachedRec]; exact this
+            · rw [statesOf_setDetachedRec]; exact this
             · exact this
         · simp only [pure, Except.pure, Except.ok.injEq] at hc
           subst hc; rfl
-      have h2 : s'.fstateOf q = s1.fstateOf q := by
+      have h2 : s'.statesOf q = s1.statesOf q := by
         unfold KState.detachFlags at h
         split at h
         · simp only [bind, Except.bind] at h
@@ -650,19 +672,41 @@ theorem fstateOf_detach (s s' : KState) (k q : Key) (h : s.detach k = .ok s') : 
           | error e => simp [hfl] at h
           | ok s2 =>
             simp only [hfl] at h
-            rw [fstateOf_flagCheckAfterSources s2 s' k q h, fstateOf_flagChecksWithProducts s1 s2 k q hfl]
+            rw [statesOf_flagCheckAfterSources s2 s' k q h, statesOf_flagChecksWithProducts s1 s2 k q hfl]
         · simp only [pure, Except.pure, Except.ok.injEq] at h
           subst h; rfl
       exact h2.trans h1
 
+theorem statesOf_foldlM_detach (l : List Node) (s s' : KState) (q : Key)
+    (h : l.foldlM (fun st p => st.detach p.key) s = .ok s') : s'.statesOf q = s.statesOf q :=
+  foldlM_keeps (fun b => b.statesOf q = s.statesOf q) _ l
+    (fun b a b' _ hb hr => (statesOf_detach b b' a.key q hr).trans hb) s s' rfl h
+
+theorem statesOf_deleteHash (s : KState) (k q : Key) : (s.deleteHash k).statesOf q = s.statesOf q := by
+  unfold KState.deleteHash
+  exact statesOf_modify s k q _ (fun n => by by_cases h : n.shash.isSome <;> simp [h])
+    (fun n => by by_cases h : n.shash.isSome <;> simp [h]) (fun n => by by_cases h : n.shash.isSome <;> simp [h])
+
+theorem fstateOf_modify (s : KState) (k q : Key) (f : Node → Node) (hkey : ∀ n, (f n).key = n.key)
+    (hf : ∀ n, (f n).fstate = n.fstate) : (s.modify k f).fstateOf q = s.fstateOf q :=
+  find?_modify_proj s k f (·.fstate) q hkey hf
+
+theorem sstateOf_modify (s : KState) (k q : Key) (f : Node → Node) (hkey : ∀ n, (f n).key = n.key)
+    (hf : ∀ n, (f n).sstate = n.sstate) : (s.modify k f).sstateOf q = s.sstateOf q :=
+  find?_modify_proj s k f (·.sstate) q hkey hf
+
 theorem fstateOf_foldlM_detach (l : List Node) (s s' : KState) (q : Key)
     (h : l.foldlM (fun st p => st.detach p.key) s = .ok s') : s'.fstateOf q = s.fstateOf q :=
-  foldlM_keeps (fun b => b.fstateOf q = s.fstateOf q) _ l
-    (fun b a b' _ hb hr => (fstateOf_detach b b' a.key q hr).trans hb) s s' rfl h
+  fstateOf_of_statesOf (statesOf_foldlM_detach l s s' q h)
 
-theorem fstateOf_deleteHash (s : KState) (k q : Key) : (s.deleteHash k).fstateOf q = s.fstateOf q := by
-  unfold KState.deleteHash
-  exact fstateOf_modify s k q _ (fun n => by by_cases h : n.shash.isSome <;> simp [h])
-    (fun n => by by_cases h : n.shash.isSome <;> simp [h])
+theorem sstateOf_foldlM_detach (l : List Node) (s s' : KState) (q : Key)
+    (h : l.foldlM (fun st p => st.detach p.key) s = .ok s') : s'.sstateOf q = s.sstateOf q :=
+  sstateOf_of_statesOf (statesOf_foldlM_detach l s s' q h)
+
+theorem fstateOf_deleteHash (s : KState) (k q : Key) : (s.deleteHash k).fstateOf q = s.fstateOf q :=
+  fstateOf_of_statesOf (statesOf_deleteHash s k q)
+
+theorem sstateOf_deleteHash (s : KState) (k q : Key) : (s.deleteHash k).sstateOf q = s.sstateOf q :=
+  sstateOf_of_statesOf (statesOf_deleteHash s k q)
 
 end StepupModel.K
